@@ -41,6 +41,10 @@ def placements(big=False):
     out.append(('2 ranks on one node, cores [0,1,4,5] and [2,3,6,7]',
                 [_slot('node03', 3, [0, 1, 4, 5]), _slot('node03', 3, [2, 3, 6, 7])]))
     out.append(('1+1 ranks, cores [1,3,5] each', [_slot('node03', 3, [1, 3, 5]), _slot('node04', 4, [1, 3, 5])]))
+    # ranks in cyclic / interleaved node order (a scheduler that spreads ranks over nodes)
+    out.append(('2+2 ranks in cyclic node order', [_slot('node03', 3, [0]), _slot('node04', 4, [0]), _slot('node03', 3, [1]), _slot('node04', 4, [1])]))
+    out.append(('2+1 ranks, node order 3,4,3', [_slot('node03', 3, [0]), _slot('node04', 4, [0]), _slot('node03', 3, [1])]))
+    out.append(('1+2+1 ranks, node order 5,3,4,3', [_slot('node05', 5, [0]), _slot('node03', 3, [0]), _slot('node04', 4, [0]), _slot('node03', 3, [1])]))
     if big:
         for nn, per in ((43, 1), (50, 2), (45, 1)):
             slots = [_slot('n%03d' % n, n, [r]) for n in range(nn) for r in range(per)]
@@ -129,6 +133,8 @@ def read_cmd(kind, lm, cmd, task):
         nn = _opt(cmd, '--nodes')
         if nn is not None and names and int(nn) != len(set(names)):
             return ('--nodes %s but %d nodes listed' % (nn, len(set(names)))), None
+        if len(names) != len(set(names)):
+            return ('the node list names a node twice (%s)' % ','.join(names)), None
         return n, set(names)
     if base == 'MPIRUN':
         n = int(_opt(cmd, '-np'))
